@@ -12,6 +12,7 @@ result, host-call log) and validated by TLC: accepted iff RotoSem.Eval gives tha
 """
 import semlib
 import vlib
+from checks import c01ieee
 
 PID = "C01"
 CORE = ["ints", "bool", "float", "char", "loops", "calls", "recfn", "ret", "enum", "opt", "rec", "list", "str", "fstr", "generic", "filtermap", "copymut", "hostopt", "shadow", "gconst", "kconst", "mods"]
@@ -27,17 +28,22 @@ def run(tier):
               "boundary operand pairs), literal typing, seeded random programs; distinct = distinct (source, inputs); "
               "non-trivial = program longer than a single operation (matrix and literal cases count as non-trivial because "
               "each isolates one operator/typing rule)"),
-        assumptions=["float arithmetic only on exactly representable results (inexact rounding is not claimed)",
+        assumptions=["RotoSem's own float arithmetic (Dyadic) covers exactly representable results; inexact results, ties, "
+                     "subnormals, overflow and NaN operands of + - * / unary minus and the comparisons are decided by the "
+                     "Ieee.tla part on operand bit patterns (NaN results: only `is a NaN` is asserted)",
                      "integer division by zero and MIN / -1 are outside the domain (C10)",
                      "u64 literals above i64::MAX are rejected by the parser and therefore not generated",
                      "program size and nesting are bounded by the generator"],
         extra_cases=extra,
         required_kinds=["bin:add", "bin:sub", "bin:mul", "bin:div", "bin:rem", "bin:lt", "bin:ge", "un:neg", "un:not",
-                        "cset", "if", "match", "while", "for", "ret", "call", "block", "flit"])
+                        "cset", "if", "match", "while", "for", "ret", "call", "block", "flit"],
+        extra_parts=[c01ieee.run_ieee])
 
 
 def replay(path):
     import json
     obj = json.load(open(path))["replay"]
+    if isinstance(obj, dict) and obj.get("part") == "ieee":
+        return c01ieee.replay_ieee(obj, PID)
     print(obj.get("src", ""))
     return run("quick")
